@@ -21,9 +21,10 @@ RULE = ('one evaluation = one seeded simulated run of 2-4 contenders (threads sh
         '(every waiter eventually acquires); non-trivial = at least one context switch inside a critical section or a contended '
         'acquire; distinct = SHA-256 of the seam event log')
 RULE += ' ' + 'In one run in seven every contender first takes an uncontended primitive of the same kind and key on a cache of its own and keeps it throughout.'
+RULE += ' ' + 'In a fifth of the runs Lock and BoundedSemaphore releases are made under another thread identity than the acquire.'
 ASSUMPTIONS = ['polling acquire loops (1 ms virtual sleeps) are run with critical sections of at most a few virtual milliseconds',
                'lock keys carry no expiry in this check']
-PROBES = ('contended_acquire', 'nested_rlock', 'bad_release_refused', 'lock_wait', 'barrier_calls', 'with_statement', 'cs_raised', 'barrier_mixed_with_primitive', 'fresh_handles', 'json_disk', 'long_section', 'outer_same_key')
+PROBES = ('contended_acquire', 'nested_rlock', 'bad_release_refused', 'lock_wait', 'barrier_calls', 'with_statement', 'cs_raised', 'barrier_mixed_with_primitive', 'fresh_handles', 'json_disk', 'long_section', 'outer_same_key', 'released_by_another_thread')
 TECHNIQUE = 'deterministic simulation: seeded schedules of contenders with virtual-time polling; holder-count witness invariant checked at every critical-section entry; bounded-progress check'
 LEVEL_TEXT = ('seeded exploration of contender interleavings at seam granularity (and source lines for shared objects) with a witness '
               'invariant (holders <= 1, <= value for the semaphore, re-entrancy only by the owner) evaluated during the run, plus '
@@ -66,6 +67,7 @@ def gen_case(seed, tier):
         if kind == 'sem':
             cfg['value'] = 1
     cfg['outer_same_key'] = rng.random() < 0.15
+    cfg['handoff'] = rng.random() < 0.2
     cfg['json_disk'] = rng.random() < 0.2      # the primitives keep their state as cache values: any Disk must do
     # 'handles': every acquire and every release goes through a fresh Lock / RLock / BoundedSemaphore object on the same key -
     # the state lives in the cache, the objects are interchangeable handles that may be dropped at any time
@@ -285,7 +287,19 @@ def run_case(case):
                             finally:
                                 for dlevel in range(taken):
                                     leave(name)
-                                    prim.release()
+                                    if cfg.get('handoff') and kind in ('lock', 'sem'):
+                                        # a Lock / BoundedSemaphore has no owner: whoever holds the object may release it - here
+                                        # another thread of the process (a pool's callback thread) does
+                                        me = sim.current
+                                        mine = me.tid
+                                        me.tid = 5000 + i
+                                        try:
+                                            prim.release()
+                                        finally:
+                                            me.tid = mine
+                                        probes['released_by_another_thread'] = 1
+                                    else:
+                                        prim.release()
                     except CsError:
                         probes['cs_raised'] = probes.get('cs_raised', 0) + 1
                 if cfg['bad_release'] and i == 1 and kind == 'rlock':
